@@ -43,8 +43,13 @@ SKELETON = ["html", "head", "title", "/title", "/head", "body", "h1", "/h1", "p"
 
 
 def strategy(ctx):
-    payload = st.lists(st.one_of(st.sampled_from(FRAGS), st.text(alphabet="<>&\"'/ =ab;#x!-", min_size=1, max_size=6)),
-                       min_size=1, max_size=4).map(lambda l: MARK + "".join(l) + MARK)
+    short = st.lists(st.one_of(st.sampled_from(FRAGS), st.text(alphabet="<>&\"'/ =ab;#x!-", min_size=1, max_size=6)),
+                     min_size=1, max_size=4).map(lambda l: MARK + "".join(l) + MARK)
+    # long payloads: markup at the start, in the middle or at the very end of a multi-KB message (truncation/ellipsis code paths)
+    pad = st.sampled_from([200, 1000, 2040, 2048, 3000, 5000, 9000])
+    long_ = st.tuples(short, pad, st.sampled_from(["head", "middle", "tail"])).map(
+        lambda t: (t[0] + "p" * t[1]) if t[2] == "head" else ("p" * t[1] + t[0]) if t[2] == "tail" else ("p" * (t[1] // 2) + t[0] + "p" * (t[1] // 2)))
+    payload = st.one_of(short, short, short, long_)
     return st.tuples(st.sampled_from(H1_KINDS + H1_KINDS + H2_KINDS), payload, st.booleans())
 
 
